@@ -201,16 +201,27 @@ def _crowd():
     spec += [["s%d.sh" % i, "f", _CROWD_SCRIPT, 0o755] for i in range(4)]
     spec.append(["arc.zip", "zip", {"members": [["m%d.txt" % i, "f", "".join("member %d line %06d\n" % (i, n) for n in range(20000))]
                                                  for i in range(3)]}])
+    # documents produced by Python code the server loads per request (.pyg), each saying which one it is
+    pyg = ("from pygopherd.handlers.pyg import PYGBase\nfrom pygopherd.gopherentry import GopherEntry\n\n\nclass PYGMain(PYGBase):\n"
+           "    def canhandlerequest(self):\n        return True\n\n    def isdir(self):\n        return False\n\n"
+           "    def getentry(self):\n        entry = GopherEntry(self.selector, self.config)\n        entry.type = '0'\n"
+           "        entry.mimetype = 'text/plain'\n        entry.name = 'pyg %d'\n        return entry\n\n"
+           "    def write(self, wfile):\n        wfile.write(('this is pyg document %d\\n' * 50).encode())\n")
+    spec += [["p%d.pyg" % i, "f", pyg % (i, i), 0o755] for i in range(6)]
     plan = []
     for i in range(6):
         for form in (["gopher", "https", "gplus"] if i % 2 else ["gophers", "http", "spartan"]):
             plan.append(({"sel": "/big%d.txt" % i, "kind": "doc"}, form))
     for i in range(3):
         plan.append(({"sel": "/arc.zip/m%d.txt" % i, "kind": "doc"}, ["gopher", "http", "gemini"][i]))
+    for i in range(6):
+        plan.append(({"sel": "/p%d.pyg" % i, "kind": "doc"}, ["gopher", "http", "gplus", "gophers", "gemini", "spartan"][i]))
     raw = []
     for i in range(4):
+        # (the whole crowd stays below 40 connections: the forking server serves at most 40 at a time, and the harness
+        # connects every socket before it releases any request)
         raw += [(b"/s%d.sh\tquery%d\r\n" % (i, i), False, "gopher"), (b"/s%d.sh?a%d b\r\n" % (i, i), True, "gophers"),
-                (b"GET /s%d.sh?q=%d HTTP/1.0\r\n\r\n" % (i, i), False, "http"), (b"/s%d.sh\t+\r\n" % i, False, "gplus")]
+                (b"GET /s%d.sh?q=%d HTTP/1.0\r\n\r\n" % (i, i), False, "http")][:2 + (i % 2)]
     return spec, plan, raw
 
 
